@@ -11,21 +11,28 @@ Fixpoint c24_flat (i : Z) (l : list (list bool)) (acc : list Z) : list Z :=
    bfs: in every explored state (reached by `path`), every operation of the
    universe: same error class, same five maps afterwards, same freshness verdict.
    rand: the same after every event of a random sequence. *)
-Definition c24_trans_ok (s pre : st) (o : op) (t : res err * option st * bool) : bool :=
-  let '(e, post, fr) := t in
+(* the maps after operation number j: listed in `changes` when they changed *)
+Definition c24_post (changes : list (Z * st)) (j : Z) : option st := aget Z.eqb j changes.
+Fixpoint c24_zip3 (j : Z) (ops : list op) (ts : list (res err * bool)) : list (Z * op * (res err * bool)) :=
+  match ops, ts with
+  | o :: ops', t :: ts' => (j, o, t) :: c24_zip3 (j + 1) ops' ts'
+  | _, _ => []
+  end.
+Definition c24_trans_ok (s pre : st) (changes : list (Z * st)) (x : Z * op * (res err * bool)) : bool :=
+  let '(j, o, (e, fr)) := x in
   Bool.eqb fr (fresh_b s o) &&
   match step s o, e with
   | Panic, Panic => true
   | Val (s', e'), Val e0 =>
-      err_eqb e' e0 && match post with Some d => st_eqb s' d | None => st_eqb s' pre end
+      err_eqb e' e0 && match c24_post changes j with Some d => st_eqb s' d | None => st_eqb s' pre end
   | _, _ => false
   end.
-Definition c24_bfs_case (c : list op * st * list (res err * option st * bool)) : list bool :=
-  let '(path, pre, trans) := c in
+Definition c24_bfs_case (c : list op * st * list (res err * bool) * list (Z * st)) : list bool :=
+  let '(path, pre, trans, changes) := c in
   match run init path with
   | Val s =>
       if st_eqb s pre && Nat.eqb (List.length trans) (List.length universe)
-      then map (fun ot : op * (res err * option st * bool) => c24_trans_ok s pre (fst ot) (snd ot)) (combine universe trans)
+      then map (c24_trans_ok s pre changes) (c24_zip3 0 universe trans)
       else map (fun _ => false) universe
   | Panic => map (fun _ => false) universe
   end.
